@@ -1173,7 +1173,8 @@ class NumbaModule:
                 "form_integral_ids": list(f.form_integral_ids),
                 "domains": [int(i.domain) for i in f.form_integrals],
                 "enabled": [[int(b) for b in i.enabled_coefficients][:f.num_coefficients] for i in f.form_integrals],
-                "needs_perm": [bool(i.needs_facet_permutations) for i in f.form_integrals]}
+                "needs_perm": [bool(i.needs_facet_permutations) for i in f.form_integrals],
+                "finite_element_hashes": [int(h) if h is not None else None for h in (f.finite_element_hashes or [])][:f.rank + f.num_coefficients]}
 
 
 def c_descriptor(mod: Module, k):
@@ -1192,7 +1193,8 @@ def c_descriptor(mod: Module, k):
             "form_integral_ids": [f.form_integral_ids[i] for i in range(nint)],
             "domains": [int(f.form_integrals[i].domain) for i in range(nint)],
             "enabled": [[int(f.form_integrals[i].enabled_coefficients[j]) for j in range(no)] for i in range(nint)],
-            "needs_perm": [bool(f.form_integrals[i].needs_facet_permutations) for i in range(nint)]}
+            "needs_perm": [bool(f.form_integrals[i].needs_facet_permutations) for i in range(nint)],
+            "finite_element_hashes": [int(f.finite_element_hashes[i]) for i in range(f.rank + no)]}
 
 
 # ---------------------------------------------------------------------------
